@@ -66,10 +66,21 @@ def probe_step(m, kind):
     raise ValueError(kind)
 
 
-def concretise_step(m, step):
+PROFILES = {
+    # thresholds on r for a logged-in session: USER, PASS, PASV/EPSV, file ops, transfers (rest: misc)
+    "default": (0.03, 0.05, 0.10, 0.38, 0.85),
+    "auth": (0.18, 0.26, 0.34, 0.55, 0.85),
+    "perm": (0.02, 0.03, 0.08, 0.55, 0.95),
+}
+
+
+def concretise_step(m, step, profile="default", user_names=None, passwords=None):
     if isinstance(step, str):
         return probe_step(m, step)
     a, b, c, d, e = step
+    t_user, t_pass, t_pasv, t_file, t_xfer = PROFILES[profile]
+    user_names = user_names or USER_NAMES
+    passwords = passwords or PASSWORDS
     r = a / 256.0
     files = sorted(k for k, val in m.tree.items() if val != DIR)
     if not m.logged():
@@ -79,15 +90,15 @@ def concretise_step(m, step):
             v = (FILEOPS + XFER + MISC + ["PASV", "EPSV"])[b % 30]
     elif not m.listener and r < 0.5:
         v = ["PASV", "EPSV"][b % 2]
-    elif r < 0.03:
+    elif r < t_user:
         v = "USER"
-    elif r < 0.05:
+    elif r < t_pass:
         v = "PASS"
-    elif r < 0.10:
+    elif r < t_pasv:
         v = ["PASV", "EPSV", "EPSV"][b % 3]
-    elif r < 0.38:
+    elif r < t_file:
         v = FILEOPS[b % len(FILEOPS)]
-    elif r < 0.85:
+    elif r < t_xfer:
         v = XFER[b % len(XFER)]
         if not files and b % 3:
             v = ["STOR", "APPE"][b % 2]
@@ -104,9 +115,14 @@ def concretise_step(m, step):
     V = v.upper()
     arg = ""
     if V == "USER":
-        arg = USER_NAMES[c % len(USER_NAMES)]
+        arg = user_names[c % len(user_names)]
+        if (c // 8) % 3:
+            known = [u["login"] or "anonymous" for u in m.users]
+            arg = known[c % len(known)]
     elif V == "PASS":
-        arg = PASSWORDS[c % len(PASSWORDS)]
+        arg = passwords[c % len(passwords)]
+        if m.user is not None and m.user.get("password") and c % 3 == 0:
+            arg = m.user["password"]
     elif V in ("CWD", "MKD", "RMD", "DELE", "RNFR", "RNTO", "LIST", "MLSD", "MLST", "STOR", "APPE", "RETR"):
         arg = gen_path(m, c, d)
         if V in ("RETR", "DELE", "APPE") and (d // 16) % 5 < 3:
@@ -133,15 +149,22 @@ def concretise_step(m, step):
     return dict(verb=v, arg=arg, connect=connect, payload=payload)
 
 
-def concretise(program, users=USERS, tree=INITIAL_TREE, ipv6=False):
+def concretise(program, users=USERS, tree=INITIAL_TREE, ipv6=False, profile="default", user_names=None,
+               passwords=None, pwd_after=(), continue_through=()):
+    program = list(program)
     """Abstract program -> concrete history, using the model alone.  Also returns a per-step
     `judge` flag: False where the property texts leave the outcome open (counted as excluded)."""
     m = Model(users, ipv6=ipv6, tree=tree)
     out = []
     rnfr_unknown = False
     have_dconn = False
-    for step in program:
-        cs = concretise_step(m, step)
+    i = -1
+    while i + 1 < len(program):
+        i += 1
+        step = program[i]
+        cs = concretise_step(m, step, profile, user_names, passwords)
+        if cs["verb"].upper() in pwd_after:
+            program.insert(i + 1, "pwd")
         V = cs["verb"].upper()
         judge = True
         why = None
@@ -164,13 +187,11 @@ def concretise(program, users=USERS, tree=INITIAL_TREE, ipv6=False):
         exp = m.step(cs["verb"], cs["arg"], connect=connect or "never", payload=cs["payload"])
         if exp.get("agnostic"):
             judge, why = False, exp["agnostic"]
-        if exp.get("backend_dependent"):
-            judge, why = False, "restart write to a missing file"
         cs["judge"] = judge
         if why:
             cs["why"] = why
         out.append(cs)
-        if not judge or exp.get("ends"):
+        if exp.get("ends") or (not judge and why not in continue_through):
             break  # the model no longer knows the state: stop the history here
     return out
 
